@@ -423,6 +423,28 @@ def generate(repo, outdir_lean, outdir_json, write_if_changed):
                                 f"    (constructObj {mod}.classes 4 {cid} hist s').toOption.bind (Aoe.Props.Hooks.effOfVal k f effSlots_{mod}) = some o :=\n"
                                 f"  Aoe.Props.Hooks.effect_roundtrip k f effSlots_{mod} (by decide) {mod}.classes 3 {cid} hist {mod}.c{cid} rfl\n"
                                 f"    allPlainSkip_{mod}_Effect (by decide) (by rw [hh]; exact tableSafeAt_{mod}_Effect) o ho s s' h\n")
+        # the map: width and height are links of their own next to the terrain list (whose refresh writes isqrt(len) first)
+        for mname, mm in g.meta.items():
+            pos = {l["name"]: i for i, l in enumerate(mm["links"])}
+            if not all(n in pos for n in ("map_width", "map_height", "terrain")):
+                continue
+            cid = mm["id"]
+            jw, jh, jl = pos["map_width"], pos["map_height"], pos["terrain"]
+            laws_src.append(f"/-- the saved map of a {mname} (version {v}) is the square the manager holds: when it hands the side `n` to the width and\n"
+                            f"height links and `n * n` tiles to the terrain link, the file stores width = height = n and exactly n * n terrain records -/\n"
+                            f"theorem map_square_{mod}_{mname} (vals : List Val) (s s' : Sections)\n"
+                            f"    (h : commitObj {mod}.classes 4 {cid} [] (.strct vals) s = .ok s') (n : Nat) (os : List Val)\n"
+                            f"    (hw : vals[{jw}]? = some (.int n)) (hh : vals[{jh}]? = some (.int n)) (hl : vals[{jl}]? = some (.list os))\n"
+                            f"    (hsq : os.length = n * n) :\n"
+                            f"    (∃ a path acts names p, {mod}.c{cid}.links[{jw}]? = some (a, .plain path acts names) ∧ resolve [] path = some p ∧\n"
+                            f"      getAt p s'.root = some (.int n)) ∧\n"
+                            f"    (∃ a path acts names p, {mod}.c{cid}.links[{jh}]? = some (a, .plain path acts names) ∧ resolve [] path = some p ∧\n"
+                            f"      getAt p s'.root = some (.int n)) ∧\n"
+                            f"    (∃ a path ccls d nm g acts names q, {mod}.c{cid}.links[{jl}]? = some (a, .objs path ccls d nm g acts names) ∧\n"
+                            f"      resolve [] path = some q ∧ Aoe.Props.CommitFrame.ListLen q (n * n) s'.root) :=\n"
+                            f"  ⟨Aoe.Props.Hooks.plain_of_table {mod}.classes 3 {cid} [] vals s s' {mod}.c{cid} {jw} _ tableSafe_{mod}_{mname} h rfl (by decide) hw,\n"
+                            f"   Aoe.Props.Hooks.plain_of_table {mod}.classes 3 {cid} [] vals s s' {mod}.c{cid} {jh} _ tableSafe_{mod}_{mname} h rfl (by decide) hh,\n"
+                            f"   hsq ▸ Aoe.Props.Hooks.list_of_table {mod}.classes 3 {cid} [] vals s s' {mod}.c{cid} {jl} os tableSafe_{mod}_{mname} h rfl (by decide) hl⟩\n")
         mods.append((v, mod))
         meta_all[v] = {"classes": g.meta, "managers": [c.__name__ for c in mgr_classes]}
     agg = "\n".join(f"import Aoe.Generated.{m}" for _, m in mods) + "\n/-! GENERATED by tools/gen_mgr.py -/\nnamespace Aoe.Generated\nopen Aoe.Commit\n"
